@@ -261,11 +261,16 @@ func flagsOf(s string, mask int) string {
 	return b.String()
 }
 
-// expected lists the body blocks Markdown can express: blocks without visible text are left out.
+// expected lists the body blocks Markdown can express: blocks without visible text are left out, and the CodeBlock
+// paragraphs of one piece of code (groupCode) are one code block.
 func expected(c Case) []Blk {
 	var out []Blk
 	for _, b := range c.Blocks {
 		switch b.K {
+		case "code":
+			out = append(out, Blk{Kind: "code", Text: b.T}) // also without visible text: an empty line of the code
+		case "empty":
+			out = append(out, Blk{Kind: kindGap})
 		case "table":
 			x := Blk{Kind: "table", HdrBold: b.HdrBold}
 			for i, row := range b.Cells {
@@ -284,6 +289,7 @@ func expected(c Case) []Blk {
 			out = append(out, x)
 		case "p":
 			if blank(b.paraText()) {
+				out = append(out, Blk{Kind: kindGap})
 				continue
 			}
 			var f strings.Builder
@@ -291,15 +297,81 @@ func expected(c Case) []Blk {
 				f.WriteString(flagsOf(r.T, r.mask()))
 			}
 			out = append(out, Blk{Kind: "p", Text: b.paraText(), Flags: f.String()})
-		case "empty":
 		default:
 			if blank(b.T) {
+				out = append(out, Blk{Kind: kindGap})
 				continue
 			}
 			out = append(out, Blk{Kind: b.K, Level: b.Level, Text: b.T})
 		}
 	}
+	return groupCode(out)
+}
+
+// kindGap marks, in a raw block sequence, a paragraph of any kind but CodeBlock that has no visible text. Markdown has
+// no notation for it; it matters only between two lines of code.
+const kindGap = "\x00gap"
+
+// groupCode: in Word every line of a piece of code is a paragraph of its own (style CodeBlock), in Markdown the piece is
+// one fenced block. The CodeBlock paragraphs that follow one another - with nothing in between but paragraphs without
+// visible text - are therefore ONE code block: its text is the paragraphs' texts, one line each (a text that has line
+// feeds of its own is several lines), and every paragraph without visible text between two of them is an empty line.
+// Such paragraphs before the first and after the last line belong to nothing. A piece of code without any visible
+// character is not expected in the Markdown. In goes the raw sequence (every CodeBlock paragraph a "code" block, every
+// other paragraph without visible text a kindGap block), out comes the sequence Markdown can express.
+func groupCode(raw []Blk) []Blk {
+	var out []Blk
+	var lines []string
+	gaps := 0
+	flush := func() {
+		if lines != nil {
+			if t := strings.Join(lines, "\n"); !blank(t) {
+				out = append(out, Blk{Kind: "code", Text: t})
+			}
+		}
+		lines, gaps = nil, 0
+	}
+	for _, b := range raw {
+		switch b.Kind {
+		case "code":
+			if lines == nil {
+				gaps = 0 // nothing before the first line
+			}
+			for ; gaps > 0; gaps-- {
+				lines = append(lines, "")
+			}
+			lines = append(lines, b.Text)
+		case kindGap:
+			gaps++
+		default:
+			flush()
+			out = append(out, b)
+		}
+	}
+	flush()
 	return out
+}
+
+// linesOfCode: the lines of a code block's text. A carriage return before a line feed belongs to the line terminator.
+func linesOfCode(s string) []string {
+	ls := strings.Split(s, "\n")
+	for i := range ls { // the last line ends with the line terminator the fence needs
+		ls[i] = strings.TrimRight(ls[i], "\r")
+	}
+	return ls
+}
+
+func sameCode(want, got string) bool {
+	a, b := linesOfCode(want), linesOfCode(got)
+	if len(a) != len(b) {
+		return false
+	}
+	for i := range a {
+		if a[i] != b[i] {
+			return false
+		}
+	}
+	return true
 }
 
 // readDoc observes a document's body as a block sequence (kinds from paragraph style / numbering / table).
@@ -314,9 +386,6 @@ func readDoc(d *document.Document) []Blk {
 			var s strings.Builder
 			for _, r := range x.Runs {
 				s.WriteString(r.Text.Content)
-			}
-			if blank(s.String()) {
-				continue
 			}
 			b := Blk{Kind: "p", Text: s.String()}
 			if x.Properties != nil {
@@ -334,6 +403,9 @@ func readDoc(d *document.Document) []Blk {
 						b.Kind = "code"
 					}
 				}
+			}
+			if b.Kind != "code" && blank(b.Text) {
+				b = Blk{Kind: kindGap}
 			}
 			out = append(out, b)
 		case *document.Table:
@@ -354,7 +426,7 @@ func readDoc(d *document.Document) []Blk {
 			out = append(out, b)
 		}
 	}
-	return out
+	return groupCode(out)
 }
 
 func descr(b Blk) string {
@@ -372,6 +444,9 @@ func descr(b Blk) string {
 	if b.Kind == "h" {
 		return fmt.Sprintf("h%d(%q)", b.Level, norm(b.Text))
 	}
+	if b.Kind == "code" {
+		return fmt.Sprintf("code(%q)", b.Text) // compared line by line
+	}
 	return fmt.Sprintf("%s(%q)", b.Kind, norm(b.Text))
 }
 
@@ -383,8 +458,9 @@ func descrAll(bs []Blk) string {
 	return strings.Join(s, " ")
 }
 
-// sameBlock compares kind and whitespace-normalised text. Heading levels are compared where Markdown
-// can express them (1..6); for Heading7..9 any heading level is accepted.
+// sameBlock compares kind and whitespace-normalised text; the text of a code block, which is literal, line by line and
+// character by character. Heading levels are compared where Markdown can express them (1..6); for Heading7..9 any
+// heading level is accepted.
 func sameBlock(want, got Blk) bool {
 	if want.Kind != got.Kind {
 		return false
@@ -409,6 +485,8 @@ func sameBlock(want, got Blk) bool {
 		if want.Level <= 6 && want.Level != got.Level {
 			return false
 		}
+	case "code":
+		return sameCode(want.Text, got.Text)
 	}
 	return norm(want.Text) == norm(got.Text)
 }
@@ -510,11 +588,18 @@ var reOrderedMarker = regexp.MustCompile(`(?m)^\d+[.)] `)
 func diffSkeleton(c Case, md string) string {
 	var inOrder, text, tables strings.Builder
 	ordered := false
-	lang := skeleton(c.codeLang()) // the info string of every code fence
-	for _, b := range c.Blocks {
+	lang := skeleton(c.codeLang()) // the info string of every code fence: once per piece of code (groupCode)
+	inCode := false                // a piece of code with visible text has begun and no other visible block has followed yet
+	for i, b := range c.Blocks {
 		k := skeleton(b.text())
-		if b.K == "code" && !blank(b.T) {
-			k = lang + k
+		switch {
+		case b.K == "code":
+			if !inCode && codeVisibleFrom(c.Blocks, i) {
+				k = lang + k
+				inCode = true
+			}
+		case b.K == "table" || !blank(b.text()):
+			inCode = false
 		}
 		inOrder.WriteString(k)
 		if b.K == "table" {
@@ -553,6 +638,22 @@ func diffSkeleton(c Case, md string) string {
 		return x[lo:hi]
 	}
 	return fmt.Sprintf("letters and digits of the body text and of the Markdown differ from position %d: body ...%q, markdown ...%q", i, cut(w), cut(got[0]))
+}
+
+// codeVisibleFrom: the piece of code that begins with block i (a CodeBlock paragraph not preceded by one of the same
+// piece) has visible text.
+func codeVisibleFrom(bs []Block, i int) bool {
+	for _, b := range bs[i:] {
+		switch {
+		case b.K == "code":
+			if !blank(b.T) {
+				return true
+			}
+		case b.K == "table" || !blank(b.text()):
+			return false
+		}
+	}
+	return false
 }
 
 // diffFormat compares formatting only on units whose text occurs equally often on both sides.
@@ -981,6 +1082,7 @@ func describe(c Case, res *kit.Result) {
 	for k := range kinds {
 		res.Label("kind:" + k)
 	}
+	describeCode(c, res)
 	between := tableBetweenParagraphs(c)
 	if between {
 		res.Label("table-between-paragraphs")
@@ -1030,12 +1132,26 @@ func describe(c Case, res *kit.Result) {
 	}
 	res.Label("opt:bullet" + o.Bullet)
 	res.Label("opt:emph" + o.Emph)
-	class, exact := triggered(c)
-	for _, t := range class {
-		res.Label("class-mask:" + t)
+	// the classes of findings that have been repaired are judged outright: they are input classes (label class:), no masks
+	allClass, allExact := triggered(c)
+	var class, exact, repaired []string
+	for _, t := range allClass {
+		if isOpen(t) {
+			class = append(class, t)
+			res.Label("class-mask:" + t)
+		} else {
+			repaired = append(repaired, t)
+			res.Label("class:" + t)
+		}
 	}
-	for _, t := range exact {
-		res.Label("exact-mask:" + t)
+	for _, t := range allExact {
+		if isOpen(t) {
+			exact = append(exact, t)
+			res.Label("exact-mask:" + t)
+		} else {
+			repaired = append(repaired, t)
+			res.Label("class:" + t)
+		}
 	}
 	// fully-judged: every clause E1-E5 is decided exactly - either outright, or (for the exact findings the case
 	// is in) against the body after exactly the predicted effect; no clause is waived for the case's input class.
@@ -1062,9 +1178,73 @@ func describe(c Case, res *kit.Result) {
 			}
 		}
 	}
-	trig := append(append([]string{}, class...), exact...)
+	trig := append(append(append([]string{}, class...), exact...), repaired...)
 	res.Nontrivial = between && fmtRuns >= 2 && len(kinds) >= 3
 	res.Shape = strings.Join(shape, "|") + fmt.Sprintf("|%v%v%s%s%v%d%v", o.GFM, o.Setext, o.Bullet, o.Emph, o.Wrap, o.MaxLen, o.Meta) + "|" + strings.Join(trig, ",") + describeWide(c, res)
+}
+
+// describeCode: labels of the pieces of code (groupCode) and of the lists of the case.
+func describeCode(c Case, res *kit.Result) {
+	paras, gaps, pending := 0, 0, 0
+	vis := false
+	end := func() {
+		if vis && paras >= 2 {
+			res.Label("code:piece-of-paragraphs>=2")
+			if paras >= 4 {
+				res.Label("code:piece-of-paragraphs>=4")
+			}
+		}
+		if vis && gaps > 0 {
+			res.Label("code:empty-paragraph-between-lines")
+		}
+		paras, gaps, pending, vis = 0, 0, 0, false
+	}
+	prevItem := ""
+	for _, b := range c.Blocks {
+		switch {
+		case b.K == "code":
+			if paras > 0 {
+				gaps += pending
+				if blank(b.T) {
+					res.Label("code:line-without-text")
+				}
+			}
+			pending = 0
+			paras++
+			vis = vis || !blank(b.T)
+			if !blank(b.T) && hasLineEnd(b.T) {
+				res.Label("code:text-of-several-lines")
+				if strings.Contains(b.T, "\r\n") {
+					res.Label("code:crlf")
+				}
+				for _, l := range strings.Split(b.T, "\n") {
+					if blank(l) {
+						res.Label("code:empty-line-in-text")
+					}
+				}
+			}
+		case b.K == "table" || !blank(b.text()):
+			end()
+		default:
+			pending++
+		}
+		if b.K == "li" && !blank(b.T) {
+			kind := "bullet"
+			if b.Ord {
+				kind = "numbered"
+			}
+			if prevItem != "" {
+				res.Label("list:items>=2")
+				if prevItem != kind {
+					res.Label("list:bullet-next-to-numbered")
+				}
+			}
+			prevItem = kind
+		} else if b.K == "table" || !blank(b.text()) {
+			prevItem = ""
+		}
+	}
+	end()
 }
 
 // describeWide: labels of the widened dimensions (from the content) and their part of the shape.
@@ -1327,15 +1507,18 @@ func TestC20(t *testing.T) {
 	defer removeProcScratch()
 	kit.Main(t, kit.Spec[Case]{
 		ID: "C20", Level: "exploration",
-		Rule: "document of 1-10 (thorough 1-16) blocks drawn from headings 1-9, paragraphs of 1-5 runs (bold/italic/strike/code-font combinations), bullet and numbered list items, Quote and CodeBlock paragraphs, 1-5 x 1-5 tables (bold or plain first row, empty cells) and empty paragraphs, in any interleaving (a list item directly before a table in a quarter of the cases), under every combination of export options (GFM/simple tables, setext, three bullet markers, two emphasis markers, wrapping at 1..80, metadata); the options reach the exporter as the caller's own struct (~78 %) or through DefaultExportOptions(), NewExporter(nil)+nil options, HighQualityExportOptions(); in half of the cases 1-2 other exports (HighQualityExportOptions, a customised copy-by-pointer of what DefaultExportOptions returned, another struct, nil options) run between the judged exports; modes clean (~31 %: safe alphabet, single formats), benign (~21 %: plus lists, code blocks, empty paragraphs, plain table headers, multi-format and code+emphasis runs, Heading7-9, ASCII and Unicode blanks at the edges of formatted runs and headings, formatted runs touching each other or a plain neighbour, wrapped formatted text), hostile (~40 %: the benign shapes with text from 25 classes of Markdown syntax - emphasis/tilde/backtick/backslash runs, brackets and links, angle brackets and HTML, entities, dollar, pipes, '!' , leading '#' '-' '+' '*' '=' '>' ':' and ordered markers, table-like and fence-like lines, task boxes, autolinks with and without syntax characters, punctuation at word edges - on their own, glued before/after/inside a word, in headings, items, quotes, cells (pipes more often), plain, formatted and code-font runs (backtick strings), CodeBlock paragraphs (fence-like lines, backtick runs)) and wild (~8 %: simple tables or metadata, half of them with hostile text); widened (about a fifth of the cases leave the path 'document in memory, ExportToString, ConvertString'): the export is made through ExportToBytes, ExportToFile, BatchExport (1-4 inputs, rarely 10-12, cuts of the document, rarely a file that is no document among them) or BidirectionalConverter.AutoConvert, under file names with upper-case extension, several dots, non-ASCII characters or blanks; the document is built in memory, saved by the library and opened again, or written by an independent writer the way other producers do (several sections, on/off properties with explicit values true/1/on and false/0/off, paragraph mark formatting, numId 0, runs split into several w:r / w:t with rsid attributes, proofErr and bookmarks in between, tables without tblPr/tblGrid or with tblHeader, another namespace prefix, no styles part, directory entries, an empty part, stored entries, absolute targets); one Exporter and one options struct serve every judged export of a case (asked twice in a row, and again after the history), the options are given to NewExporter (nil per call), passed over a constructor holding others, or written as a struct literal; a second document goes through the judged exporter (into the same .md file) in between, a file that does not exist is exported, option fields that cannot concern the document are flipped, DefaultCodeLang set; the way back is ConvertString, ConvertBytes (the buffer overwritten afterwards), ConvertFile or AutoConvert, optionally on a Converter that converts an unrelated text before and after; sizes past the usual ones with a small probability (6-70 runs, 6-33 columns, 6-65 rows, 17-65 blocks, texts of 2-9 KiB and > 64 KiB, words of 300 characters, MaxLineLength 0, -1, 2, 3, 9, 11, 79, 81, 1000, 65536); value classes: line feeds, CR LF, tabs and blanks outside Zs (U+0085, U+2028, U+2029, U+202F, U+205F) at run edges and between words, letters outside the BMP, combining marks, symbols at word edges, words that are prefixes of one another or differ in case, headings / items / quotes / code paragraphs / runs without visible text, page break paragraphs, the bullet and front matter the library itself writes; non-trivial = a table between two text blocks, >= 2 formatted runs and >= 3 block kinds; distinct = distinct sequence of (block kind, heading level, run format masks, table size) + options + finding classes the case is in",
+		Rule: "document of 1-10 (thorough 1-16) blocks drawn from headings 1-9, paragraphs of 1-5 runs (bold/italic/strike/code-font combinations), bullet and numbered list items, Quote and CodeBlock paragraphs (half of the CodeBlock paragraphs followed by 1-4 further lines of the same piece of code: CodeBlock paragraphs with text, without text, of blanks, with indentation, and - between them, before the first and after the last - paragraphs of other kinds without visible text; one CodeBlock text in seven has 2-4 lines of its own, LF or CR LF, among them empty, blank-only and indented ones), 1-5 x 1-5 tables (bold or plain first row, empty cells) and empty paragraphs, in any interleaving (a list item directly before a table in a quarter of the cases), under every combination of export options (GFM/simple tables, setext, three bullet markers, two emphasis markers, wrapping at 1..80, metadata); the options reach the exporter as the caller's own struct (~78 %) or through DefaultExportOptions(), NewExporter(nil)+nil options, HighQualityExportOptions(); in half of the cases 1-2 other exports (HighQualityExportOptions, a customised copy-by-pointer of what DefaultExportOptions returned, another struct, nil options) run between the judged exports; modes clean (~31 %: safe alphabet, single formats), benign (~21 %: plus lists, code blocks, empty paragraphs, plain table headers, multi-format and code+emphasis runs, Heading7-9, ASCII and Unicode blanks at the edges of formatted runs and headings, formatted runs touching each other or a plain neighbour, wrapped formatted text), hostile (~40 %: the benign shapes with text from 25 classes of Markdown syntax - emphasis/tilde/backtick/backslash runs, brackets and links, angle brackets and HTML, entities, dollar, pipes, '!' , leading '#' '-' '+' '*' '=' '>' ':' and ordered markers, table-like and fence-like lines, task boxes, autolinks with and without syntax characters, punctuation at word edges - on their own, glued before/after/inside a word, in headings, items, quotes, cells (pipes more often), plain, formatted and code-font runs (backtick strings), CodeBlock paragraphs (fence-like lines, backtick runs)) and wild (~8 %: simple tables or metadata, half of them with hostile text); widened (about a fifth of the cases leave the path 'document in memory, ExportToString, ConvertString'): the export is made through ExportToBytes, ExportToFile, BatchExport (1-4 inputs, rarely 10-12, cuts of the document, rarely a file that is no document among them) or BidirectionalConverter.AutoConvert, under file names with upper-case extension, several dots, non-ASCII characters or blanks; the document is built in memory, saved by the library and opened again, or written by an independent writer the way other producers do (several sections, on/off properties with explicit values true/1/on and false/0/off, paragraph mark formatting, numId 0, runs split into several w:r / w:t with rsid attributes, proofErr and bookmarks in between, tables without tblPr/tblGrid or with tblHeader, another namespace prefix, no styles part, directory entries, an empty part, stored entries, absolute targets); one Exporter and one options struct serve every judged export of a case (asked twice in a row, and again after the history), the options are given to NewExporter (nil per call), passed over a constructor holding others, or written as a struct literal; a second document goes through the judged exporter (into the same .md file) in between, a file that does not exist is exported, option fields that cannot concern the document are flipped, DefaultCodeLang set; the way back is ConvertString, ConvertBytes (the buffer overwritten afterwards), ConvertFile or AutoConvert, optionally on a Converter that converts an unrelated text before and after; sizes past the usual ones with a small probability (6-70 runs, 6-33 columns, 6-65 rows, 17-65 blocks, texts of 2-9 KiB and > 64 KiB, words of 300 characters, MaxLineLength 0, -1, 2, 3, 9, 11, 79, 81, 1000, 65536); value classes: line feeds, CR LF, tabs and blanks outside Zs (U+0085, U+2028, U+2029, U+202F, U+205F) at run edges and between words, letters outside the BMP, combining marks, symbols at word edges, words that are prefixes of one another or differ in case, headings / items / quotes / code paragraphs / runs without visible text, page break paragraphs, the bullet and front matter the library itself writes; non-trivial = a table between two text blocks, >= 2 formatted runs and >= 3 block kinds; distinct = distinct sequence of (block kind, heading level, run format masks, table size) + options + finding classes the case is in",
 		Gen:  genCase, Run: run, Findings: findings, Fixed: fixedCases,
 		Assumptions: []string{
 			"goldmark v1.7.8 with extension.GFM is the reference reading of the exported Markdown (CommonMark 0.31 + GFM tables/strikethrough/autolinks); backslash escapes and entities are resolved as a renderer would, autolink labels count as text",
 			"a leading '---' metadata block is removed before the reference parse when IncludeMetadata is set (front matter is outside CommonMark)",
 			"block text is compared after collapsing whitespace runs; paragraphs without visible text are not expected in the Markdown; heading levels 7-9 may come out at any level; ordered vs bullet marker of a list item is not judged",
 			"the re-imported document is observed through Body.Elements (paragraph style / numbering properties / tables), default ConvertOptions",
-			"exact masks: for the findings with one predictable effect ('• ' paragraphs for items, simple tables read as paragraph text, blank lines of empty paragraphs, bold first table row, Heading7/9 -> italic Heading6, front matter read back as a heading) the failing clause is re-judged against the body after exactly that effect and waived only if it then holds; label fully-judged = no clause of E1-E5 is waived for the case's input class (unmasked = not even an exact mask applies)",
+			"exact masks: for the findings with one predictable effect (simple tables read as paragraph text, bold first table row, front matter read back as a heading, the blank line after an item that is followed by a paragraph without visible text) the failing clause is re-judged against the body after exactly that effect and waived only if it then holds; label fully-judged = no clause of E1-E5 is waived for the case's input class (unmasked = not even an exact mask applies)",
 			"text containing Markdown syntax is judged like any other text (E1-E5 exact): the reference reading resolves backslash escapes and character references, so any correct way of escaping passes; class masks remain only for delimiter placement (KF-C20-delimiter-context: flanking, fused delimiter runs, '~~' after a tilde, delimiters inside an autolink word - decided by a model of the documented run merging, validated by exhaustive enumeration) and for line breaks inside code spans (KF-C20-wrap-code-span)",
+			"a piece of code is one CodeBlock paragraph per line in the document and one fenced block in Markdown: CodeBlock paragraphs that follow one another with nothing in between but paragraphs without visible text are expected as ONE code block, one line per paragraph (a text with line feeds of its own is several lines), one empty line per paragraph without visible text between two of them; such paragraphs before the first and after the last line are nothing, a piece without any visible character is not expected; the info string (DefaultCodeLang) is expected once per piece. The same reading is applied to the re-imported body. The text of a code block is literal: it is compared line by line and character by character (blanks, tabs, indentation, empty lines included) in E1 and E4; only a carriage return at the end of a line counts as part of the line terminator",
+			"list items are judged like every other block in E4/E5: an item comes back as a paragraph with numbering properties, and the second export has the same item lines (bullet vs numbered is not judged in E1/E4; E5 compares the bytes)",
+			"the classes of findings that have been repaired are labelled class:<id> and judged outright; class-mask: / exact-mask: labels name open findings only",
 			"C20.E2r (letters and digits of the raw Markdown = letters and digits of the body text, in order) is judged on every case without any mask",
 			"C20.E6 (stability): the document exported again with the same requested options, obtained the same way, after the other exports of the case's history, is byte-identical to the first export; no mask. For options taken from the library's constructors the requested values are the documented ones (defaults; HighQuality = defaults + metadata)",
 			"every entry point is judged by the same clauses on the text it produces (E1-E3 on the file's content for ExportToFile / BatchExport / AutoConvert, on every output of a batch; E4/E5 over ConvertString, ConvertBytes, ConvertFile + Open, AutoConvert; E6 on the second output). The output of input <dir>/<base>.docx of a batch is looked for as <outputDir>/<base>.md (the name the README examples show); a batch holding a file that is no document is judged only when BatchExport returns nil (IgnoreErrors set in the options passed to the call)",
@@ -1345,10 +1528,11 @@ func TestC20(t *testing.T) {
 			"a simple (non-GFM) table is judged against the reference reading of exactly the lines the open finding describes (cell texts written with a backslash before every ASCII punctuation character, which reads the same as any other correct escaping), standing as a block of their own: absorbed into a neighbour, missing rows or a wrong position stay violations; its fixpoint clause compares the two exports without backslash escapes, '*', '_' and line breaks",
 		},
 		MustSee: map[string]float64{"fully-judged": 0.8, "unmasked": 0.38, "fully-judged:table-between-paragraphs": 0.12, "fully-judged:formatted-runs>=2": 0.25,
-			"fully-judged:kind:li": 0.1, "fully-judged:kind:code": 0.04, "fully-judged:kind:q": 0.15, "fully-judged:kind:empty": 0.012,
+			"fully-judged:kind:li": 0.1, "fully-judged:kind:code": 0.04, "code:piece-of-paragraphs>=2": 0.05, "code:piece-of-paragraphs>=4": 0.015, "code:empty-paragraph-between-lines": 0.02,
+			"code:text-of-several-lines": 0.02, "code:empty-line-in-text": 0.012, "code:line-without-text": 0.012, "code:crlf": 0.003, "list:items>=2": 0.03, "list:bullet-next-to-numbered": 0.01, "fully-judged:kind:q": 0.15, "fully-judged:kind:empty": 0.012,
 			"table-between-paragraphs": 0.15, "formatted-runs>=2": 0.3, "opt:setext": 0.3, "opt:wrap": 0.2,
 			"opt:simple-tables": 0.06, "opt:metadata": 0.008, "kind:table": 0.4, "run:multi-format": 0.02,
-			"class-mask:KF-C20-delimiter-context": 0.01, "class-mask:KF-C20-wrap-code-span": 0.002,
+			"class-mask:KF-C20-delimiter-context": 0.01, "class:KF-C20-wrap-code-span": 0.002,
 			"hostile:any": 0.3, "fully-judged:hostile:any": 0.27, "unmasked:hostile": 0.07,
 			"fully-judged:hostile:in:cell": 0.09, "fully-judged:hostile:in:h": 0.08, "fully-judged:hostile:in:li": 0.07, "fully-judged:hostile:in:q": 0.015,
 			"fully-judged:hostile:in:plain-run": 0.09, "fully-judged:hostile:in:formatted-run": 0.06, "fully-judged:hostile:in:code-run": 0.025,
